@@ -149,6 +149,16 @@ C_UploadableOnlyIfW(which, a, s, t) ==
     a.op = "run" => \A wk \in MadeUploadable(s, t) : U_Cond(which, a, s, wk)
 C_UploadableOnlyIf(a, s, t) == \A which \in {"data", "age", "rate", "optin"} : C_UploadableOnlyIfW(which, a, s, t)
 
+(* The X that counts is the X the posted report CARRIES (posted: the reports    *)
+(* sent in this run as [wk, bx, lx], X in units of 2^-20, lx the X of the local  *)
+(* report of that week or -1): for a week made uploadable in this run it is not  *)
+(* above a positive sample rate (a.n2, in 1/1024), and it is the very X of the   *)
+(* week's local report - one X per report, not one for the decision and another  *)
+(* for the upload.                                                               *)
+C_BodyXRate(a, s, t, posted) ==
+    \A q \in posted : (q.wk \in MadeUploadable(s, t) /\ a.n2 > 0 /\ q.bx >= 0) => q.bx <= a.n2 * 1024
+C_BodyXSame(a, s, t, posted) == \A q \in posted : (q.lx >= 0 /\ q.bx >= 0) => q.bx = q.lx
+
 (* "an uploadable report is sent only if its week is not in the future and     *)
 (* ends after the recorded opt-in date"                                        *)
 S_Cond(which, s, wk) ==
